@@ -345,9 +345,19 @@ class ExprMixin(object):
         return to_int(v)
 
     def get_slice(self, b, lo, hi, st, n):
-        hook = self.slice_hook(b, st)
-        if hook is not None:
-            yield from hook(b, lo, hi, st, n)
+        if isinstance(lo, UnionV) or isinstance(hi, UnionV):
+            for s1, l1 in self.split(st, lo if lo is not None else NONE):
+                for s2, h1 in self.split(s1, hi if hi is not None else NONE):
+                    yield from self.get_slice(b, l1, h1, s2, n)
+            return
+        if isinstance(b, RefV) and b.kind == 'obj' and b.cls is not None:
+            from .calls import SliceV
+            c, m = b.cls.find_method('__getitem__')
+            if m is None:
+                yield st, ExcV('TypeError', 'object is not subscriptable', getattr(n, 'lineno', None))
+            else:
+                key = ConstV(SliceV(NONE if lo is None else lo, NONE if hi is None else hi, NONE))
+                yield from self.call_repo(None, ('method', b, c, m), [key], {}, st, n)
             return
         b = self.deref_list(b, st)
         if isinstance(b, ConstV) and isinstance(b.py, (bytes, str)):
@@ -370,6 +380,18 @@ class ExprMixin(object):
 
     def get_item(self, b, i, st, n):
         line = getattr(n, 'lineno', None)
+        if isinstance(b, RefV) and b.kind == 'obj' and b.cls is not None:
+            c, m = b.cls.find_method('__getitem__')
+            if m is None:
+                yield st, ExcV('TypeError', 'object is not subscriptable', line)
+            else:
+                yield from self.call_repo(None, ('method', b, c, m), [i], {}, st, n)
+            return
+        if isinstance(i, ConstV) and type(i.py).__name__ == 'SliceV':
+            if not isinstance(i.py.step, NoneV):
+                raise Unsupported('slice object with a step at line %s' % line)
+            yield from self.get_slice(b, i.py.start, i.py.stop, st, n)
+            return
         if isinstance(b, RefV):
             if b.kind == 'rec':
                 if isinstance(i, ConstV) and isinstance(i.py, str):
@@ -486,6 +508,9 @@ class ExprMixin(object):
                 raise Unsupported('class attribute %s.%s at line %s' % (b.py.name, attr, line))
         if isinstance(b, ConstV) and isinstance(b.py, ModuleHandle):
             yield st, FuncV('%s.%s' % (b.py.name, attr), ('modfn', b.py.name, attr))
+            return
+        if isinstance(b, ConstV) and type(b.py).__name__ == 'SliceV' and attr in ('start', 'stop', 'step'):
+            yield st, getattr(b.py, attr)
             return
         # method on a value
         yield st, FuncV('.%s' % attr, ('valmethod', b, attr))
